@@ -224,7 +224,12 @@ wrapped["mman"] = r'''
     // address range to the next mapping, otherwise two different shared objects would share an identity
     // depending on the kernel's placement. The mapping is simply kept until the process ends.
     pub unsafe fn munmap(addr: *mut void, len: size_t) -> int {
-        if sim::quarantine::is_on() { return 0; }
+        if sim::quarantine::is_on() {
+            // keep the range reserved (never reused) but make it inaccessible: an access through a dangling
+            // pointer into an unmapped segment is then a crash of the forked run instead of a silent success
+            unsafe { libc::mprotect(addr as *mut libc::c_void, len, libc::PROT_NONE) };
+            return 0;
+        }
         ry_!("munmap", 0, "", -1);
         if remote::active() { remote::unregister_shared(addr as usize); }
         unsafe { real::munmap(addr, len) }
@@ -307,7 +312,7 @@ wrapped["sched"] = r'''
     }
 '''
 
-HELPER = '\n    #[allow(unused_imports)]\n    use iceoryx2_pal_concurrency_sync::sim::remote;\n    #[allow(dead_code)]\n    fn cs_(p: *const c_char) -> alloc::string::String {\n        if p.is_null() { return alloc::string::String::new(); }\n        unsafe { core::ffi::CStr::from_ptr(p) }.to_string_lossy().into_owned()\n    }\n    #[allow(dead_code)]\n    fn set_errno_(e: i32) { unsafe { *libc::__errno_location() = e; } }\n    /// remote mode: report the call, let the controller decide (go / fail / kill)\n    macro_rules! ry_ {\n        ($kind:expr, $arg:expr, $detail:expr, $failret:expr) => {\n            if remote::active() {\n                if let remote::Answer::Fail(e) = remote::yield_point($kind, $arg as i64, $detail) {\n                    set_errno_(e);\n                    return $failret;\n                }\n            }\n        };\n    }\n'
+HELPER = '\n    #[allow(unused_imports)]\n    use iceoryx2_pal_concurrency_sync::sim::remote;\n    #[allow(dead_code)]\n    fn cs_(p: *const c_char) -> alloc::string::String {\n        if p.is_null() { return alloc::string::String::new(); }\n        unsafe { core::ffi::CStr::from_ptr(p) }.to_string_lossy().into_owned()\n    }\n    #[allow(dead_code)]\n    fn set_errno_(e: i32) { unsafe { *libc::__errno_location() = e; } }\n    /// remote mode: report the call, let the controller decide (go / fail / kill)\n    macro_rules! ry_ {\n        ($kind:expr, $arg:expr, $detail:expr, $failret:expr) => {\n            if iceoryx2_pal_concurrency_sync::sim::pathlog::is_on() {\n                iceoryx2_pal_concurrency_sync::sim::pathlog::push($kind, $detail);\n            }\n            if remote::active() {\n                if let remote::Answer::Fail(e) = remote::yield_point($kind, $arg as i64, $detail) {\n                    set_errno_(e);\n                    return $failret;\n                }\n            }\n        };\n    }\n'
 out = ["// GENERATED by gen_os.py — custom POSIX platform for the simulator (DESIGN.md §3.2).",
        "pub mod posix {"]
 for m in mods:
